@@ -46,6 +46,8 @@ def _qderiv_actuator_passive_vel(
   actuator_dynprm: wp.array2d[vec10],
   actuator_gainprm: wp.array2d[vec10],
   actuator_biasprm: wp.array2d[vec10],
+  actuator_ctrllimited: wp.array[bool],
+  actuator_ctrlrange: wp.array2d[wp.vec2],
   actuator_actlimited: wp.array[bool],
   actuator_actrange: wp.array2d[wp.vec2],
   actuator_actearly: wp.array[bool],
@@ -56,6 +58,8 @@ def _qderiv_actuator_passive_vel(
   ctrl_in: wp.array2d[float],
   act_dot_in: wp.array2d[float],
   actuator_force_in: wp.array2d[float],
+  # In:
+  dsbl_clampctrl: int,
   # Out:
   vel_out: wp.array2d[float],
 ):
@@ -161,7 +165,12 @@ def _qderiv_actuator_passive_vel(
       vel += gain * act
   else:
     if gain != 0.0:
-      vel += gain * ctrl_in[worldid, actid]
+      # the force uses the clamped control (as _actuator_force)
+      ctrl = ctrl_in[worldid, actid]
+      if actuator_ctrllimited[actid] and not dsbl_clampctrl:
+        ctrlrange = actuator_ctrlrange[worldid % actuator_ctrlrange.shape[0], actid]
+        ctrl = wp.clamp(ctrl, ctrlrange[0], ctrlrange[1])
+      vel += gain * ctrl
 
   vel_out[worldid, actid] = vel
 
@@ -1143,6 +1152,8 @@ def deriv_smooth_vel(m: Model, d: Data, out: wp.array2d[float]):
           m.actuator_dynprm,
           m.actuator_gainprm,
           m.actuator_biasprm,
+          m.actuator_ctrllimited,
+          m.actuator_ctrlrange,
           m.actuator_actlimited,
           m.actuator_actrange,
           m.actuator_actearly,
@@ -1152,6 +1163,7 @@ def deriv_smooth_vel(m: Model, d: Data, out: wp.array2d[float]):
           d.ctrl,
           d.act_dot,
           d.actuator_force,
+          m.opt.disableflags & DisableBit.CLAMPCTRL,
         ],
         outputs=[vel],
       )
